@@ -243,6 +243,10 @@ impl<F: Field, EF: ExtensionField<F>, LG: LookupProtocol> RecursiveAir<F, EF, LG
         0
     }
 
+    fn num_public_values(&self) -> usize {
+        0
+    }
+
     fn num_periodic_columns(&self) -> usize {
         0
     }
